@@ -143,6 +143,17 @@ func TestC19(t *testing.T) {
 			f.Root.Props = append(f.Root.Props, model.Prop{Name: "anymap", Node: &model.Node{Kind: model.KAnyOf, Branches: []*model.Node{mapOf(model.KInteger), mapOf(model.KString)}}})
 			c.Count("shape.anyof_map_branches")
 		}
+		if rapid.Bool().Draw(rt, "widemap") {
+			// a definition with five declared properties and typed additional properties: a bad
+			// additional value is met only after everything else has decoded
+			wide := &model.Node{Kind: model.KObject, Additional: &model.Additional{Schema: &model.Node{Kind: rapid.SampledFrom([]model.Kind{model.KInteger, model.KString, model.KBoolean}).Draw(rt, "widemapkind")}}}
+			for i := 0; i < 5; i++ {
+				wide.Props = append(wide.Props, model.Prop{Name: fmt.Sprintf("w%d", i), Node: &model.Node{Kind: []model.Kind{model.KString, model.KInteger, model.KBoolean}[i%3]}})
+			}
+			f.Defs = append(f.Defs, model.Def{Name: "ZWide", Node: wide})
+			f.Root.Props = append(f.Root.Props, model.Prop{Name: "zwide", Node: &model.Node{Kind: model.KRef, Ref: "#/$defs/ZWide", Target: wide}})
+			c.Count("shape.wide_struct_with_typed_additional")
+		}
 		if rapid.IntRange(0, 2).Draw(rt, "localnames") == 0 {
 			// a type named like the local twin the methods declare (Plain): the method must not call itself
 			addLocalIdentifierDefs(rt, c, f)
@@ -248,6 +259,14 @@ func TestC19(t *testing.T) {
 						label string
 						b     []byte
 					}{"valid-for-definition", dv.Marshal()})
+					if d.Kind == model.KObject && d.Additional != nil && d.Additional.Schema != nil && d.Additional.Schema.Kind != model.KAny && dv.K == jv.Obj {
+						// everything declared is fine, one additional key has a value of another type
+						bad := jv.ArrV(jv.ObjV())
+						mine = append(mine, struct {
+							label string
+							b     []byte
+						}{"bad-additional-value", dv.Set("zzbadextra", bad).Marshal()})
+					}
 				}
 			}
 			for _, in := range mine {
